@@ -54,21 +54,26 @@ theorem cellOfSix_valid (name : String) (args : List ℝ) (c : ℝ × ℝ × ℝ
     subst h
     exact ⟨a, b, cc, al, be, ga, by simp [Gen.cellForSystem]⟩
 
+/-- handing the stored cell back to the constructor (lengths, angles in degrees, with the system name) reproduces it -/
+theorem cell_fixed_point (sys : String) (c1 c2 c3 l1 l2 l3 a1 a2 a3 d1 d2 d3 : ℝ)
+    (h : Gen.cellForSystem sys a1 a2 a3 d1 d2 d3 = some (c1, c2, c3, l1, l2, l3)) :
+    CrystalModel.cellOfSystem sys [c1, c2, c3, toDeg l1, toDeg l2, toDeg l3] = some (c1, c2, c3, l1, l2, l3) := by
+  simp only [Gen.cellForSystem] at h
+  split_ifs at h with h1 h2 h3 h4 h5 h6 h7
+  all_goals
+    first
+    | (simp only [beq_iff_eq] at *
+       subst_vars
+       simp only [Option.some.injEq, Prod.mk.injEq] at h
+       obtain ⟨rfl, rfl, rfl, rfl, rfl, rfl⟩ := h
+       simp [CrystalModel.cellOfSystem, CrystalModel.fieldsFor, Gen.systemFields, CrystalModel.fill, CrystalModel.Fields.set,
+         Gen.cellForSystem, toRad_toDeg])
+    | cases h
+
 theorem crystal_roundtrip (c : CrystalS ℝ) (hv : ValidCrystal c) : crystalOfDict (crystalDict c) = some c := by
   obtain ⟨a1, a2, a3, d1, d2, d3, h⟩ := hv
   obtain ⟨name, sys, c1, c2, c3, l1, l2, l3⟩ := c
-  simp only [Gen.cellForSystem] at h
-  have key : CrystalModel.cellOfSystem sys [c1, c2, c3, toDeg l1, toDeg l2, toDeg l3] = some (c1, c2, c3, l1, l2, l3) := by
-    split_ifs at h with h1 h2 h3 h4 h5 h6 h7
-    all_goals
-      first
-      | (simp only [beq_iff_eq] at *
-         subst_vars
-         simp only [Option.some.injEq, Prod.mk.injEq] at h
-         obtain ⟨rfl, rfl, rfl, rfl, rfl, rfl⟩ := h
-         simp [CrystalModel.cellOfSystem, CrystalModel.fieldsFor, Gen.systemFields, CrystalModel.fill, CrystalModel.Fields.set,
-           Gen.cellForSystem, toRad_toDeg])
-      | cases h
+  have key := cell_fixed_point sys c1 c2 c3 l1 l2 l3 a1 a2 a3 d1 d2 d3 h
   simp [crystalOfDict, crystalDict, J.keys, crystalKeys, J.get?, J.getD, List.find?, numArgs, key]
 
 theorem refVec_roundtrip (r : RefVecS ℝ) : refVecOfDict (refVecDict r) = some r := by
